@@ -1,7 +1,7 @@
 package snapshot
 
-// Abstract file system with crash points (DESIGN 4.2), shared by the C07 and C08 harnesses (the
-// file is identical in both directories).
+// Abstract file system with crash points (DESIGN 4.2). It started as the file shared with the C08
+// harness; this copy additionally has crash points INSIDE the calls that are not atomic.
 //
 // Symbolic run: spec.json "models" maps the os / filepath / fsutil / sidecar / rsum / db / plan
 // helpers the code under test calls onto the v* functions below. The file system is a tree keyed
@@ -21,13 +21,26 @@ package snapshot
 // and compared with the chosen crash position; on equality the call does not happen and the
 // "process dies" (panic(vCrash{}), recovered by vRunCrash in the harness, which then runs the
 // real recovery entry point on what is on disk). Process-crash model: completed calls persist
-// entirely, the call in flight does not happen at all (no torn writes, no loss of un-synced data).
+// entirely (no loss of un-synced data); an ATOMIC call in flight (rename, remove, mkdir, create)
+// does not happen at all; a call that is NOT atomic has a second crash point INSIDE it, which
+// leaves one of its partial states on disk (chosen with verifChoice "partial<i>"):
+//   os.RemoveAll / fsutil.RemoveDirSync of a directory with m entries: any non-empty subset of the
+//       entries is gone (2^m-1 states, the last one being "all entries gone"), the directory itself
+//       is still there; an entry that is a directory goes as a whole. (The real call unlinks the
+//       entries in the order the file system enumerates them, which is not specified: every subset
+//       is the partial state of some order.)
+//   os.WriteFile, sidecar.WriteFile, io.Copy into a file: the file exists (truncated) and holds a
+//       prefix of the content: 0 bytes, 1 byte, half of it, or all but the last byte.
+//   db.CheckpointRemove: WAL content already in the database file, -wal file not yet deleted.
 // In the native replay the same counter is driven from the REAL code: spec.json "native_hooks"
 // rewrites (overlay only) the listed call sites in snapshot/ and snapshot/plan/ so that
 // verifhook.Pre runs immediately before each of them. The set of hooked callees and the set of
 // models with a crash point are the same, so position k is the same place in both worlds.
-// db.CheckpointRemove has a second crash point inside (WAL content already in the database file,
-// -wal file not yet deleted).
+// A partial removal is produced natively by the hook itself (it removes the chosen entries with the
+// real calls and dies). A partial write is produced natively by letting the real call complete and
+// dying at the very next crash point (or at the end of the run) after truncating the file to the
+// chosen prefix: nothing that mutates the disk lies between the two, so what is on disk is what a
+// death inside the write leaves.
 
 import (
 	"bytes"
@@ -66,19 +79,39 @@ const (
 	vOpEnsureWAL   = "github.com/rqlite/rqlite/v10/db.EnsureWALMode"
 	vOpSidecar     = "github.com/rqlite/rqlite/v10/snapshot/sidecar.WriteFile"
 	vOpRemoveDirSy = "github.com/rqlite/rqlite/v10/internal/fsutil.RemoveDirSync"
+	vOpIoCopy      = "io.Copy"
 )
 
 var vCr struct {
 	armed  bool
 	count  int    // crash points passed since vRunCrash began
 	at     int    // the process dies at this point (0: never)
-	op     string // the call that did not happen
+	op     string // the call that did not happen (inside: that happened in part)
 	path   string // its first argument
+	inside bool   // the process died inside the call
 	hooked bool
+
+	// native replay: a write in flight that is to be cut down to a prefix at the next crash point
+	pending    bool
+	pendPath   string
+	pendBase   int64 // bytes that were in the file before the write (io.Copy appends)
+	pendChoice int
+}
+
+// vPartialLog: the number of partial states there were at each crash inside a call of this path
+// (read by the native sweep).
+var vPartialLog []int
+
+// vPartialChoice picks one of the n partial states of the call the process dies in.
+func vPartialChoice(n int) int {
+	c := verifChoice(verifName("partial", len(vPartialLog)), n)
+	vPartialLog = append(vPartialLog, n)
+	return c
 }
 
 // vPoint is the crash point before a mutating call.
 func vPoint(op, p string) {
+	vFinishPending()
 	if !vCr.armed {
 		return
 	}
@@ -90,6 +123,104 @@ func vPoint(op, p string) {
 	}
 }
 
+// vInsidePoint is the crash point inside a call that is not atomic; die() leaves the partial state.
+func vInsidePoint(op, p string, die func()) {
+	if !vCr.armed {
+		return
+	}
+	vCr.count++
+	if vCr.count == vCr.at {
+		vCr.armed = false
+		vCr.op, vCr.path, vCr.inside = op, p, true
+		die()
+		panic(vCrash{})
+	}
+}
+
+// vRemoveAllPoints are the crash points of a recursive removal of p: before the call and, when p is
+// a directory with entries, inside it: a non-empty subset of the entries is gone (bit i of the
+// choice+1: the i-th entry in name order).
+func vRemoveAllPoints(op, p string) {
+	vPoint(op, p)
+	if !vCr.armed || !vIsDir(p) {
+		return
+	}
+	kids := vList(p)
+	if len(kids) == 0 {
+		return
+	}
+	vInsidePoint(op, p, func() {
+		n := 1<<len(kids) - 1
+		c := vPartialChoice(n)
+		verifAssume(c < n)
+		for i, k := range kids {
+			if (c+1)&(1<<i) != 0 {
+				vMust(os.RemoveAll(filepath.Join(p, k)))
+			}
+		}
+	})
+}
+
+// vPrefixLens are the explored lengths of the prefix a cut write of n bytes leaves.
+func vPrefixLens(n int) []int {
+	var out []int
+	for _, l := range []int{0, 1, n / 2, n - 1} {
+		if l >= 0 && l < n && (len(out) == 0 || l > out[len(out)-1]) {
+			out = append(out, l)
+		}
+	}
+	return out
+}
+
+// vCanCreate: creating or truncating the file p would succeed.
+func vCanCreate(p string) bool { return vIsDir(filepath.Dir(p)) && !vIsDir(p) }
+
+// vWritePoints (native replay) are the crash points of a call that writes a file: before it and,
+// when the file can be created, inside it (see the head of the file: the cut is made afterwards).
+func vWritePoints(op, p string, appendTo bool) {
+	vPoint(op, p)
+	if !vCr.armed || !vCanCreate(p) {
+		return
+	}
+	vCr.count++
+	if vCr.count == vCr.at {
+		vCr.armed = false
+		vCr.op, vCr.path, vCr.inside = op, p, true
+		vCr.pending, vCr.pendPath, vCr.pendBase = true, p, 0
+		if fi, err := os.Stat(p); err == nil && appendTo {
+			vCr.pendBase = fi.Size()
+		}
+		vCr.pendChoice = vPartialChoice(0)
+	}
+}
+
+// vFinishPending (native replay): the write in flight is cut down to the chosen prefix, the
+// process dies.
+func vFinishPending() {
+	if !vCr.pending {
+		return
+	}
+	vCr.pending = false
+	fi, err := os.Stat(vCr.pendPath)
+	vMust(err)
+	lens := vPrefixLens(int(fi.Size() - vCr.pendBase))
+	vPartialLog[len(vPartialLog)-1] = len(lens)
+	verifAssume(vCr.pendChoice < len(lens))
+	vMust(os.Truncate(vCr.pendPath, vCr.pendBase+int64(lens[vCr.pendChoice])))
+	panic(vCrash{})
+}
+
+// vCutWrite (symbolic run) is the crash point inside a write of data into node n.
+func vCutWrite(op, p string, n *vNode, data []byte) {
+	vInsidePoint(op, p, func() {
+		lens := vPrefixLens(len(data))
+		c := vPartialChoice(len(lens))
+		verifAssume(c < len(lens))
+		n.data = append(n.data, data[:lens[c]]...)
+		n.plan = nil
+	})
+}
+
 // vCheckpointPoints are the two crash points of db.CheckpointRemove(path): before the call, and
 // (when there is a -wal file) after its content reached the database file but before the -wal file
 // is deleted; half() produces that intermediate state.
@@ -98,23 +229,26 @@ func vCheckpointPoints(p string, half func()) {
 	if !vCr.armed || !vExists(p+"-wal") {
 		return
 	}
-	vCr.count++
-	if vCr.count == vCr.at {
-		vCr.armed = false
-		half()
-		vCr.op, vCr.path = vOpCkptInside, p
-		panic(vCrash{})
-	}
+	vInsidePoint(vOpCkptInside, p, half)
 }
 
 // vNativeHook is verifhook.Hook in the native replay.
 func vNativeHook(op string, arg any) {
 	p, _ := arg.(string)
-	if op == vOpCheckpoint {
+	switch op {
+	case vOpCheckpoint:
 		vCheckpointPoints(p, func() { vNativeHalfCheckpoint(p) })
-		return
+	case vOpRemoveAll, vOpRemoveDirSy:
+		vRemoveAllPoints(op, p)
+	case vOpWriteFile, vOpSidecar:
+		vWritePoints(op, p, false)
+	case vOpIoCopy:
+		if f, ok := arg.(*os.File); ok {
+			vWritePoints(op, f.Name(), true)
+		}
+	default:
+		vPoint(op, p)
 	}
-	vPoint(op, p)
 }
 
 // vNativeHalfCheckpoint: the WAL is checkpointed into the database by the real function, then the
@@ -134,7 +268,7 @@ func vRunCrash(at int, f func()) (crashed bool) {
 		verifhook.Hook = vNativeHook
 		vCr.hooked = true
 	}
-	vCr.armed, vCr.count, vCr.at, vCr.op, vCr.path = true, 0, at, "", ""
+	vCr.armed, vCr.count, vCr.at, vCr.op, vCr.path, vCr.inside, vCr.pending = true, 0, at, "", "", false, false
 	defer func() {
 		vCr.armed = false
 		if r := recover(); r != nil {
@@ -146,6 +280,7 @@ func vRunCrash(at int, f func()) (crashed bool) {
 		}
 	}()
 	f()
+	vFinishPending() // the write the process dies in was the last mutating call of the run
 	return false
 }
 
@@ -432,14 +567,14 @@ func vRemoveAll(path string) {
 
 // os.RemoveAll
 func vOsRemoveAll(path string) error {
-	vPoint(vOpRemoveAll, path)
+	vRemoveAllPoints(vOpRemoveAll, path)
 	vRemoveAll(path)
 	return nil
 }
 
 // fsutil.RemoveDirSync
 func vRemoveDirSync(dir string) error {
-	vPoint(vOpRemoveDirSy, dir)
+	vRemoveAllPoints(vOpRemoveDirSy, dir)
 	vRemoveAll(dir)
 	return nil
 }
@@ -463,6 +598,7 @@ func vOsWriteFile(name string, data []byte, perm os.FileMode) error {
 	if err != nil {
 		return err
 	}
+	vCutWrite(vOpWriteFile, name, n, data)
 	n.data = append([]byte(nil), data...)
 	return nil
 }
@@ -596,6 +732,8 @@ func vIoCopy(dst io.Writer, src io.Reader) (int64, error) {
 	default:
 		panic("verif-fs: io.Copy from something else than a file")
 	}
+	vPoint(vOpIoCopy, vHandleOf(df).path)
+	vCutWrite(vOpIoCopy, vHandleOf(df).path, dn, data)
 	dn.data = append(dn.data, data...)
 	return int64(len(data)), nil
 }
@@ -698,7 +836,9 @@ func vSidecarWrite(path string, sum uint32) error {
 	if err != nil {
 		return err
 	}
-	n.data = binary.BigEndian.AppendUint32([]byte{'C'}, sum)
+	data := binary.BigEndian.AppendUint32([]byte{'C'}, sum)
+	vCutWrite(vOpSidecar, path, n, data)
+	n.data = data
 	return nil
 }
 
@@ -829,6 +969,7 @@ func vPlanWriteToFile(p *plan.Plan, path string) error {
 	if err != nil {
 		return err
 	}
+	vCutWrite(vOpWriteFile, tmp, n, []byte("{plan}"))
 	n.plan = vCopyPlan(p)
 	n.data = []byte("{plan}")
 	vPoint(vOpRename, tmp)
@@ -859,6 +1000,7 @@ func vMust(err error) {
 // temporary directory natively. Everything below it is created with the ordinary os calls
 // (which are the models above in the symbolic run).
 func vNewRoot(tag string) string {
+	vPartialLog = nil
 	if verifSymbolic() {
 		root := "/" + tag
 		vFS = vNewFS(root)
